@@ -671,6 +671,8 @@ class FDPE(Interp):
                         to_term(self.apply(args[0], [Sym(("sym", var))], node))))
         if name in ("list", "tuple") and len(args) == 1 and isinstance(args[0], Sym):
             return args[0]
+        if name == "len" and len(args) == 1 and isinstance(args[0], Sym):
+            return Sym(("shape", args[0].t, 0))
         if name in ("float", "int") and args and isinstance(args[0], (int, Fraction)):
             v = Fraction(args[0])
             return int(v) if name == "int" else args[0]
